@@ -62,7 +62,7 @@ vars == <<pool, nops, last, view>>
 Ids == 1..Len(pool)
 IsCls(i) == pool[i].kind = "cls"
 Root(i)  == IF pool[i].orig = 0 THEN i ELSE pool[i].orig
-FieldNames == {"a", "s", "b", "x", "y", "m1", "m2", "n1", "d"}
+FieldNames == {"a", "s", "b", "x", "y", "m1", "m2", "n1", "d", "t", "q", "r", "p"}
 
 \* ---- the observable projection
 RECURSIVE Flat(_, _)
@@ -99,7 +99,10 @@ Proj(p, i) ==
 \* 5: class D(Mx1, Mx2)(d: Integer) with mixins Mx1(m1: Integer, m2: Unicode), Mx2(n1: Integer):
 \*    mixin fields come first, mixins in base order, each in declaration order
 Pool0 == << Prim("int"), Prim("str"), Cls(<<F("a", 1), F("s", 2)>>, 0), Cls(<<F("b", 1)>>, 3),
-            Cls(<<F("m1", 1), F("m2", 2), F("n1", 1), F("d", 1)>>, 0) >>
+            Cls(<<F("m1", 1), F("m2", 2), F("n1", 1), F("d", 1)>>, 0),
+            \* 6: class O declared as  p: Integer, q: Unicode(order=0), r: Integer(order=1), t: Unicode(order=0): the fields without
+            \*    an order keep their places, then each ordered field is inserted at its index IN DECLARATION ORDER: t, q, r, p
+            Cls(<<F("t", 2), F("q", 2), F("r", 1), F("p", 1)>>, 0) >>
 Init == /\ pool = Pool0 /\ nops = 0 /\ last = <<"init">>
         /\ view = [j \in 1..Len(Pool0) |-> Proj(Pool0, j)]
 
@@ -109,6 +112,11 @@ Add(m, lbl) == /\ pool' = Append(pool, m) /\ nops' = nops + 1 /\ last' = lbl /\ 
 CustPrim(i, kw) ==
   /\ pool[i].kind = "prim" /\ kw \in KwFor(pool[i].base)
   /\ Add([pool[i] EXCEPT !.attrs = Apply(@, kw), !.orig = Root(i)], <<"CustPrim", i, kw>>)
+\* the same derivation made FOR A PROTOCOL (prot=<a protocol whose class declares type attributes of its own>): the protocol's
+\* attributes are merged into THIS derivation, never kept for the next one - kw = "none" derives with nothing requested
+CustProt(i, kw) ==
+  /\ pool[i].kind = "prim" /\ (kw = "none" \/ kw \in KwFor(pool[i].base))
+  /\ Add([pool[i] EXCEPT !.attrs = IF kw = "none" THEN @ ELSE Apply(@, kw), !.orig = Root(i)], <<"CustProt", i, kw>>)
 Customize(i, kw) ==
   /\ IsCls(i) /\ kw \in {"min1", "nil0"}
   /\ Add([pool[i] EXCEPT !.attrs = Apply(@, kw), !.orig = Root(i)], <<"Customize", i, kw>>)
@@ -179,7 +187,8 @@ Publish(i) == /\ nops < MaxOps /\ nops' = nops + 1 /\ last' = <<"Publish", i>> /
 
 Next == \E i \in Ids :
           \/ \E kw \in KW : CustPrim(i, kw) \/ Customize(i, kw) \/ ChildAttrsAll(i, kw)
-          \/ \E kw \in KW, f \in FieldNames : ChildAttrs(i, f, kw)
+          \/ \E kw \in KW \cup {"none"} : CustProt(i, kw)
+          \/ \E kw \in {"min1", "nil0", "ge5", "len3"}, f \in FieldNames : ChildAttrs(i, f, kw)
           \/ ArrayOf(i) \/ Mandatory(i) \/ Publish(i)
           \/ \E t \in {1, 2} : Subclass(i, "x", t) \/ AppendField(i, "y", t) \/ InsertField(i, "y", t)
 Spec == Init /\ [][Next]_vars
